@@ -6,7 +6,7 @@
    the form of the loop in the source (index loop / range loop, declaration order), so each loop lemma is stated for a
    packing function pk and the proof tries the possible orders. *)
 From Coq Require Import List ZArith Lia Bool Arith.
-From V Require Import Lib.GoSem Proofs.GoSemFacts Gen.Randz Gen.RandzCode Model.Randz Proofs.RandzBase32.
+From V Require Import Lib.Enc Lib.GoSem Proofs.GoSemFacts Gen.Randz Gen.RandzCode Model.Randz Proofs.RandzBase32 Run.C20 Run.C20Code.
 Import ListNotations.
 Local Open Scope Z_scope.
 Arguments Z.mul : simpl never.
@@ -379,3 +379,38 @@ Proof.
   { rewrite map_length. lia. }
   cbv beta iota. rewrite map_rev. reflexivity.
 Qed.
+
+(* ================================================================== the case interpreter through the generated code *)
+Lemma is_byteb_Forall s : forallb is_byteb s = true -> Forall is_byte s.
+Proof.
+  intros H. rewrite forallb_forall in H. apply Forall_forall. intros c Hc. specialize (H c Hc).
+  unfold is_byteb in H. apply andb_true_iff in H. destruct H as [H1 H2]. zb. unfold is_byte. lia.
+Qed.
+Lemma g_parse_tokens_model s : forallb is_byteb s = true -> g_parse_tokens s = Ret (parse_out (parse_base32 s)).
+Proof.
+  intros H. unfold g_parse_tokens, g_table. rewrite code_init. cbn [bind].
+  rewrite code_ParseBase32 by (auto using is_byteb_Forall). cbn [bind].
+  destruct (parse_base32 s); reflexivity.
+Qed.
+
+(* what the check executes as `entry 0` IS the generated code (kinds 0 and 1) *)
+Theorem entry_code_is_entry : forall sub args, entry_code sub args = entry sub args.
+Proof.
+  intros sub args. unfold entry_code. destruct (sub =? 0) eqn:Es; [|reflexivity].
+  unfold entry. rewrite Es. unfold model. destruct (decode args) as [s|id| | | |]; try reflexivity.
+  - destruct (forallb is_byteb s) eqn:Eb; [|reflexivity].
+    rewrite g_parse_tokens_model by exact Eb. reflexivity.
+  - destruct (Z.ltb_spec id (2 ^ 63)) as [Hid|Hid]; [|reflexivity].
+    unfold g_format_tokens. rewrite code_Base32 by (auto; lia). cbn [run_case]. unfold m_format.
+    destruct (base32 id) as [b|]; [|reflexivity]. cbn [lift bind].
+    destruct (forallb is_byteb b) eqn:Eb; [rewrite g_parse_tokens_model by exact Eb|]; reflexivity.
+Qed.
+
+(* in-kernel anchors: the generated code computes (same cases as the anchors of Run/C20.v) *)
+Example anchor_parse_code : entry_code 0 [0; 122; 122] = [0; 0; 1023].
+Proof. vm_compute. reflexivity. Qed.
+Example anchor_parse_bad_code : entry_code 0 [0; 33] = [1; -1; 4294967295].
+Proof. vm_compute. reflexivity. Qed.
+Example anchor_format_code : entry_code 0 [1; 0; 1023] =
+  [2; 122; 122; 0; 0; 1023; 10; 49;49;49;49;49;49;49;49;49;49; 2; 115; 102; 4; 49; 48; 50; 51].
+Proof. vm_compute. reflexivity. Qed.
